@@ -74,7 +74,7 @@ def run(rec, cfg):
     toks = {True: Tokenizer(exclude_padding=True), False: Tokenizer(exclude_padding=False)}
     # one more long-lived instance whose public settings change between calls on the same text:
     # the padding switch is flipped and a function name is registered / removed again
-    from mathy_core.expressions import AbsExpression
+    from mathy_core.expressions import AbsExpression, SgnExpression
 
     flip = Tokenizer()
     classes = set()
@@ -93,11 +93,25 @@ def run(rec, cfg):
             except Exception as e:
                 outs[excl] = type(e).__name__
         if rng.random() < 0.25:
-            seq = [("pad", True), ("pad", False), ("fn+", "abs"), ("pad", True), ("fn-", "abs"), ("pad", False)]
+            seq = [("pad", True), ("pad", False), ("fn+", "abs"), ("pad", True), ("fn-", "abs"), ("pad", False), ("table", True), ("table", False), ("copy", None)]
             rng.shuffle(seq)
             for op, arg in seq[: rng.randint(2, 6)]:
                 if op == "pad":
                     flip.exclude_padding = arg
+                elif op == "table":
+                    # the whole table is replaced by a new dict (with / without the extra name)
+                    flip.functions = dict({"sgn": flip.functions.get("sgn", SgnExpression)}, **({"abs": AbsExpression} if arg else {}))
+                    flip._vmon_funcs = {"sgn": "Sgn", "abs": "Abs"} if arg else {"sgn": "Sgn"}
+                elif op == "copy":
+                    # a deep copy takes over: its table is its own
+                    import copy as _copy
+
+                    was = dict(getattr(flip, "_vmon_funcs", {"sgn": "Sgn"}))
+                    flip = _copy.deepcopy(flip)
+                    flip._vmon_funcs = was
+                    if rng.random() < 0.5:
+                        flip.functions["abs"] = AbsExpression
+                        flip._vmon_funcs = {"sgn": "Sgn", "abs": "Abs"}
                 elif op == "fn+":
                     flip.functions[arg] = AbsExpression
                     flip._vmon_funcs = {"sgn": "Sgn", arg: "Abs"}
